@@ -1,8 +1,10 @@
 //! C08 — rolling back to a checkpoint restores exactly the checkpointed database (DESIGN §C08, engine E4).
 //!
-//! Real code under test: `QueryRouter::execute_parsed` with blob + checkpoint managers
-//! (`max_checkpoints = 2`, auto-checkpoint off), i.e. `CheckpointManager::{create,rollback,list}`,
-//! `RetentionManager::enforce`, `TensorStore::{snapshot_bytes,restore_from_bytes}`.
+//! Real code under test: `QueryRouter::execute_parsed` (and `execute` for one statement) with blob +
+//! checkpoint managers (`max_checkpoints = 2`, in the thorough tier also 1 and 3; auto-checkpoint off
+//! in parts M/S/B, on in part A; plain or Bloom-filtered `TensorStore`), i.e.
+//! `CheckpointManager::{create,create_auto,rollback,list}`, `QueryRouter::protect_destructive_op`,
+//! `RetentionManager::enforce`, `TensorStore::{snapshot_bytes,restore_from_bytes,get,exists}`.
 //!
 //! Part M (main): breadth-first over statement histories from a small collision-forcing alphabet
 //!   (one table with two rows, nodes 1/2 and the edge 1->2, embeddings a/b, CHECKPOINT 'c<k>',
